@@ -330,6 +330,7 @@ pub fn fingerprint(db: &GrafeoDB) -> u64 {
 }
 
 pub struct SoloOpts {
+    pub reduced: bool,
     pub only_fe0: bool,
     pub skip_fe: usize,
 }
@@ -360,7 +361,7 @@ impl Runner {
 
     /// The calls made for one string are a deterministic function of (lang, query,
     /// outcome of the probes).  `solo` = emit a `C` marker before every call.
-    pub fn run_string(&mut self, lang: Lang, q: &str, solo: Option<&SoloOpts>, out: &mut impl Write) -> Outcome {
+    pub fn run_string(&mut self, lang: Lang, q: &str, reduced: bool, solo: Option<&SoloOpts>, out: &mut impl Write) -> Outcome {
         let mut o = Outcome { parsed: false, translated: false, calls: 0, ok: 0, err: 0, max_us: 0, panics: vec![] };
         let marker = |c: &Call, out: &mut dyn Write| {
             let _ = writeln!(out, "C {}", c.desc());
@@ -425,11 +426,16 @@ impl Runner {
         let mut fe: Vec<Call> = vec![Call::Exec { db: DbKind::Empty, params: "none" }];
         if o.translated && !probe_bad && !only_fe0 {
             let sets: &[&'static str] = if q.contains('$') { &PARAM_SETS_FULL } else { &PARAM_SETS_NOREF };
-            for db in [DbKind::Empty, DbKind::G0] {
-                for p in sets {
-                    let c = Call::Exec { db, params: p };
-                    if !fe.contains(&c) {
-                        fe.push(c);
+            if reduced {
+                // quick-tier ladders: both pipelines (session path, parameter path) and both databases, once each
+                fe.push(Call::Exec { db: DbKind::G0, params: "empty" });
+            } else {
+                for db in [DbKind::Empty, DbKind::G0] {
+                    for p in sets {
+                        let c = Call::Exec { db, params: p };
+                        if !fe.contains(&c) {
+                            fe.push(c);
+                        }
                     }
                 }
             }
@@ -496,7 +502,7 @@ pub fn worker_main(tier: vcore::Tier, lo: usize, hi: usize) -> i32 {
             let item = space.get(idx);
             let _ = writeln!(out, "S {idx}");
             let _ = out.flush();
-            let o = runner.run_string(item.lang, &item.query, None, &mut out);
+            let o = runner.run_string(item.lang, &item.query, item.family == "ladder" && tier == vcore::Tier::Quick, None, &mut out);
             emit_outcome(idx, &o, &mut out);
         }
         let _ = writeln!(out, "E");
@@ -525,7 +531,7 @@ pub fn solo_main(case_file: &str, opts: SoloOpts) -> i32 {
         runner.db(DbKind::G0);
         let _ = writeln!(out, "S 0");
         let _ = out.flush();
-        let o = runner.run_string(lang, &q, Some(&opts), &mut out);
+        let o = runner.run_string(lang, &q, opts.reduced, Some(&opts), &mut out);
         emit_outcome(0, &o, &mut out);
         let _ = writeln!(out, "E");
         let _ = out.flush();
